@@ -379,7 +379,7 @@ def run(tier: str, driver_ok: bool) -> Result:
         "every single-node sibling permutation and whole-tree shuffles of small documents; one risky feature per document in dedicated streams; "
         "duplicates among siblings (19 kinds: Key / Signature with equal keyIdentifier differing in material, tag, flags, TTL, data, times or verbatim / respelled; repeated Signer; "
         "SignatureAlgorithm with equal number; bundles with equal id) x 2 or 3 versions in generated, honestly signed and archived documents x every order of the group + shuffles of the parent, "
-        "read AND validated (verdict must not depend on the order); a case is non-trivial when its text is new"
+        "read AND validated (verdict must not depend on the order); the same texts read in worker processes whose local time zone is not UTC (four zones); a case is non-trivial when its text is new"
     )
     r = lib.rng("C12")
     quick = tier == "quick"
@@ -538,6 +538,17 @@ def run(tier: str, driver_ok: bool) -> Result:
                 for k in range(1 if src["big"] and quick else 2):
                     add("duplicates", None, xmlgen.render(xmlgen.shuffle_children(t2, ppath, r), xmlgen.Layout(r)), base=base, label=lab + f":shuffle-parent-{k}", dup=dk, **kw)
 
+    # 6. the process time zone is part of the environment: the same texts read in a process whose local zone is not UTC (the
+    #    reference clients write timestamps WITHOUT a zone; what they mean must not depend on where the reader runs)
+    tz_pick = [c for c in cases if c["stream"] in ("canonical-layout", "random-layout") and c["base"] is None][: (24 if quick else 200)]
+    tz_pick += [c for c in cases if c["stream"] == "prolog-layout" and c["label"].startswith("archived:")][:4]
+    tz_pick += [c for c in cases if c["stream"] == "duplicates" and c.get("dup") == "none"][: (3 if quick else 12)]
+    zones = lib.non_utc_zones()
+    for ti, c0 in enumerate(tz_pick):
+        for z in (zones if not quick else [zones[ti % len(zones)], zones[(ti + 1) % len(zones)]]):
+            extra = {k: c0[k] for k in ("validate", "now", "source") if k in c0}
+            add("process-tz", c0["doc"], c0["text"], kind=c0["kind"], label=f"{c0['stream']}:{c0['label']}@TZ={z[0]}"[:160], tz=list(z), key_hint="process-time-zone:" + z[0], **extra)
+
     # 0. corpus: minimised documents of the recorded findings (and their baseline), judged like the rest
     corpus: list[dict[str, Any]] = []
     for f in sorted((lib.VERIF / "corpus").glob("C12_*.json")):
@@ -551,6 +562,8 @@ def run(tier: str, driver_ok: bool) -> Result:
         task = {"kind": op[c["kind"]], "text": c["text"]}
         if c.get("validate"):
             task.update({"validate": c["validate"], "now": c.get("now")})
+        if c.get("tz"):
+            task["tz"] = c["tz"]
         tasks.append((task, HANG_CONFIRM_BUDGET * 2 if m == "hang" else BUDGET))
     ctasks = []
     for e in corpus:
@@ -617,6 +630,9 @@ def run(tier: str, driver_ok: bool) -> Result:
         if c.get("dup") and not open_feats:
             key = "duplicate-siblings:" + c["dup"]
         case = {"stream": c["stream"], "kind": op[c["kind"]], "feature": c["feature"], "label": c["label"], "text": c["text"]}
+        if c.get("tz"):
+            case["tz"] = c["tz"]
+            res.bump("process-tz:" + c["tz"][0])
         if c.get("validate"):
             case.update({"validate": c["validate"], "now": c.get("now")})
         if c.get("dup"):
@@ -729,6 +745,8 @@ def replay(obj: dict[str, Any]) -> Any:
     task = {"kind": c["kind"], "text": c["text"]}
     if c.get("validate"):
         task.update({"validate": c["validate"], "now": c.get("now")})
+    if c.get("tz"):
+        task["tz"] = c["tz"]
     with WatchdogPool(1) as pool:
         o = pool.run([(task, BUDGET)])[0]
         o2 = pool.run([(dict(task, text=v["unpermuted_text"]), BUDGET)])[0] if v.get("unpermuted_text") else None
